@@ -18,7 +18,9 @@ TIMEOUT = {"quick": 300, "thorough": 2400}
 RULE = ("workloads = server in {Simple, Pooled with default pool, Pooled with user pool of size 1/2/5} x listener "
         "{TCP, Unix}; 2-16 client threads (<= 5 for the sequential server) each issuing 15-200 operations from {call, "
         "keyword call, notification, batch, invalid body (raw socket), failing method, slow method 1-20 ms}, every call "
-        "carrying a unique token that the reply must echo; all jsonrpclib modules under line-level yield injection. "
+        "carrying a unique token that the reply must echo; all jsonrpclib modules under line-level yield injection; a "
+        "stall sweep parking a pool worker / the accept thread at each line of the pool's worker loop, enqueue and "
+        "thread creation while requests arrive around the workers' idle timeout. "
         "Lifecycles = histories over {construct, serve in a thread, handle_request, shutdown, server_close}: close after "
         "serving, close with in-flight gate-blocked requests released afterwards, close without ever serving, repeated "
         "close, server_close alone while serving. Oracles: reply token = sent token, each token executed exactly once, "
@@ -58,7 +60,7 @@ def registry(gates):
 class SrvUnderTest(object):
     _serial = [0]
 
-    def __init__(self, cell, family, gate=None):
+    def __init__(self, cell, family, gate=None, pool_timeout=0.05):
         import jsonrpclib.threadpool as tp
         kind, psize = cell
         SrvUnderTest._serial[0] += 1
@@ -69,7 +71,7 @@ class SrvUnderTest(object):
         self.fx = dm.Fixture(registry(None), version=2.0)
         self.user_pool = None
         if kind == "pooled" and psize is not None:
-            self.user_pool = tp.ThreadPool(psize, 0, timeout=0.05, logname=self.poolname)
+            self.user_pool = tp.ThreadPool(psize, 0, timeout=pool_timeout, logname=self.poolname)
             self.user_pool.start()
         self.srv = servers.Srv(kind, family, self.fx, pool=self.user_pool)
         self.gate = gate
@@ -218,6 +220,83 @@ def clients_workload(ctx, rng, inj, cell, family):
                                           cell[0]), case, {"duplicated": dup[:5], "lost": lost[:5]})
     lifecycle_close(ctx, sut, case, ["shutdown", "server_close"], "after-clients")
     return len(sent)
+
+
+# ---------------------------------------------------------------------------
+# requests arriving while the request pool's workers go idle and retire (stall sweep)
+
+def idle_gap_points():
+    import jsonrpclib.threadpool as tp
+    pts = []
+    for qual, line in inject.statement_lines(tp):
+        for fn, role in (("ThreadPool.__run", "worker"), ("ThreadPool.enqueue", "serve"),
+                         ("ThreadPool.__start_thread", "serve")):
+            if qual.endswith(fn):
+                for k in (1, 2, 3, 5):
+                    pts.append({"qualname": qual, "line": line, "role": role, "k": k})
+    return pts
+
+
+def idle_gap_workload(ctx, rng, inj, family, plan):
+    import jsonrpclib
+    cell = ("pooled", rng.choice([1, 2]))
+    sut = SrvUnderTest(cell, family, pool_timeout=0.01)
+    sut.srv.start()
+    results = []
+    lock = threading.Lock()
+    inj.configure("stall", seed=rng.randrange(1 << 30), plan=dict(plan, budget=10 ** 9, cap=0.04))
+    hits0 = inj.hits
+
+    def client(cid, seed):
+        import random
+        r = random.Random(seed)
+        proxy = jsonrpclib.ServerProxy(sut.srv.url)
+        for i in range(10):
+            t = "g%d-%d" % (cid, i)
+            try:
+                out = proxy.echo(t)
+                ok = out["bound"]["token"] == t
+            except BaseException as ex:  # noqa
+                ok = "raised %s" % type(ex).__name__
+            with lock:
+                results.append((t, ok))
+            time.sleep(r.choice([0, 0.004, 0.009, 0.011, 0.013, 0.02, 0.035]))
+        try:
+            proxy("close")()
+        except Exception:
+            pass
+    ths = [threading.Thread(target=client, args=(c, rng.randrange(1 << 30)), name="vf-client-gap%d" % c)
+           for c in range(2)]
+    for t in ths:
+        t.daemon = True
+        t.start()
+    last, last_change = -1, time.monotonic()
+    frozen = False
+    while any(t.is_alive() for t in ths):
+        time.sleep(0.01)
+        n = len(results)
+        now = time.monotonic()
+        if n != last:
+            last, last_change = n, now
+        elif now - last_change > 4.0:
+            frozen = True
+            break
+    inj.configure("none")
+    case = {"cell": [cell[0], cell[1]], "family": family, "scenario": "idle-gap", "plan": plan}
+    ctx.case(("idle-gap", family, plan["qualname"], plan["line"], plan["role"], plan["k"]), nontrivial=True)
+    ctx.count("idle-gap-workloads")
+    ctx.count("judged:token-replies", len(results))
+    if inj.hits > hits0:
+        ctx.count("idle-gap-stalls-hit")
+        ctx.cell("idle-gap", plan["qualname"].split(".")[-1], plan["line"])
+    if frozen:
+        ctx.violate("request-never-answered:pooled:worker-retirement-window", case,
+                    {"answered": len(results), "stacks": poolmon.thread_stacks(sut.poolname)})
+        return
+    bad = [r for r in results if r[1] is not True]
+    if bad:
+        ctx.violate("reply-token-differs-from-sent:idle-gap", case, {"bad": bad[:5]})
+    lifecycle_close(ctx, sut, case, ["shutdown", "server_close"], "after-idle-gap")
 
 
 # ---------------------------------------------------------------------------
@@ -400,6 +479,15 @@ def run(ctx):
                 ctx.unsure("time budget exhausted in the client workloads")
                 break
             clients_workload(ctx, rng, inj, cell, fam)
+    # 1b. stall sweep: requests arriving while pool workers retire
+    pts = idle_gap_points()
+    mine = [pt for i, pt in enumerate(pts) if ctx.mine(i)]
+    rng.shuffle(mine)
+    for pt in mine[:ctx.pick(14, 10 ** 6)]:
+        if ctx.time_left() < 60:
+            ctx.unsure("time budget exhausted in the idle-gap sweep")
+            break
+        idle_gap_workload(ctx, rng, inj, rng.choice(FAMILIES), pt)
     # 2. lifecycles
     n = 0
     for rep in range(ctx.pick(1, 8)):
@@ -423,7 +511,7 @@ def finalize(m, tier):
     out = []
     for k, lo in (("judged:token-replies", 1000), ("judged:exactly-once-accounting", 10), ("lifecycles", 60),
                   ("judged:post-close", 60), ("op:invalid", 20), ("op:batch", 50), ("op:failing", 30),
-                  ("judged:in-flight-replies", 8)):
+                  ("judged:in-flight-replies", 8), ("idle-gap-stalls-hit", 30)):
         if c.get(k, 0) < lo:
             out.append("monitor counter %s too low (%d < %d)" % (k, c.get(k, 0), lo))
     return out
